@@ -201,6 +201,8 @@ func postStartReach(c *Ctx, roots []*ssa.Function, st *starterInfo, edgeOK func(
 // ---- main -----------------------------------------------------------------------------
 
 func runC07(c *Ctx, r *Report) {
+	r.Rule("C07/globals-immutable", "package-level variables of the library are written only by init functions and inside sync.Once", 1)
+	checkGlobalsNotWrittenAtRunTime(c, r, "C07/globals-immutable")
 	importFoundation(c, r, "C07", "priv-bounded")
 	r.Rule("C07/waitgroup-add", "every sync.WaitGroup counter is raised by the spawning side, before the goroutine it accounts for exists", 1)
 	checkWaitGroupAddBeforeGo(c, r, "C07/waitgroup-add")
